@@ -14,7 +14,7 @@ The oracle on `flush` re-segments the implementation's writes with the reference
 -/
 import Nebula.Driver.Common
 import Nebula.Model.Coalesce
-import Nebula.Spec.KernelGSO
+import Nebula.Spec.CoalesceObs
 
 namespace Nebula.Driver.Coalesce
 open Nebula.Driver Nebula.Coalesce
@@ -48,10 +48,6 @@ def parseWr (s : String) : Option Wr :=
 def parseWrs (s : String) : Option (List Wr) :=
   if s == "-" then some [] else ((s.splitOn " ").filter (· ≠ "")).mapM parseWr
 
-def segWr : Wr → List Bytes
-  | .write b => [b]
-  | .gso h t ps tcp => KernelGSO.kernelSegGSO h t ps tcp
-
 def keyLe (a b : Staged) : Bool := a.epoch < b.epoch || (a.epoch == b.epoch && a.counter ≤ b.counter)
 
 def strLe (a b : String) : Bool := decide (a ≤ b)
@@ -76,18 +72,14 @@ def dedup {α} [BEq α] (l : List α) : List α :=
 
 /-- the property oracle for one flushed batch: `ins` in arrival order, `ws` what the writer saw. -/
 def oracle (ins : List Staged) (ws : List Wr) : String :=
-  let out := ws.flatMap segWr
+  let out := ws.flatMap KernelGSO.kernelSeg
   let mIn := ins.map (fun sp => KernelGSO.mask sp.pkt)
   let mOut := out.map KernelGSO.mask
   let sIn := (mIn.map bytesToHex).mergeSort strLe
   let sOut := (mOut.map bytesToHex).mergeSort strLe
   -- geometry of every offloaded write
-  let badGeo := ws.find? (fun w => match w with
-    | .gso h t ps tcp => !KernelGSO.geometryOk h t ps tcp
-    | _ => false)
-  let badSeed := ws.find? (fun w => match w with
-    | .gso h t ps tcp => !KernelGSO.seedOk h t ps tcp
-    | _ => false)
+  let badGeo := ws.find? (fun w => !KernelGSO.writeGeometryOk w)
+  let badSeed := ws.find? (fun w => !KernelGSO.writeSeedOk w)
   match badGeo with
   | some w => "bad gso-geometry " ++ (showWr w).take 160
   | none =>
